@@ -80,6 +80,7 @@ func (s *Syncer) SendOnce(ctx context.Context, env *lmdb.Env) (txnID header.TxnI
 		// int64 matches the type we get from env.Info()
 		// If we update, it may be higher than from Info
 		txnID = header.TxnID(txn.ID())
+		s.txnWrote = false
 		s.l.WithField("txnID", txnID).Debug("Started dump of transaction")
 
 		// First update the shadow dbs
@@ -148,6 +149,13 @@ func (s *Syncer) SendOnce(ctx context.Context, env *lmdb.Env) (txnID header.TxnI
 		s.l.WithField("prevTxnID", txnID).WithField("txnID", info.LastTxnID).
 			Debug("Adjusting TxnID (no changes)")
 		txnID = header.TxnID(info.LastTxnID)
+	} else if !schemaTracksChanges && !s.txnWrote {
+		// Our write transaction did not change anything, so LMDB did not record
+		// it: the TxnID we got was reused by an application transaction that
+		// committed after ours ended. Do not report it as covered by us.
+		s.l.WithField("prevTxnID", txnID).WithField("txnID", info.LastTxnID).
+			Debug("Adjusting TxnID (no changes, TxnID reused by the application)")
+		txnID--
 	}
 	msg.Meta.LmdbTxnID = int64(txnID)
 
